@@ -70,6 +70,8 @@ type shareProgram struct {
 	fillSeed            uint64
 	fillMode            int  // 0 arbitrary bit patterns, 1 ordinary values, 2 all zero, 3 one constant, 4 runs of equal samples
 	nest                bool // views are obtained by slicing twice
+	build               int  // how the buffer came to be (see buildShared)
+	raw                 bool // the tasks share the built header itself, not a Slice of it
 	tasks               []shareTask
 }
 
@@ -105,6 +107,15 @@ func drawShareProgram(prog *simrt.Stream, b Bounds) *shareProgram {
 	default:
 		p.frames = 1 + prog.Draw(maxFrames)
 	}
+	hugeIn := b.HugeOneIn / 4 // C19 has fewer runs than the pool checks: huge shapes more often
+	huge := prog.Draw(hugeIn) == hugeIn-1
+	if huge {
+		// rare: a shared buffer of 64 Ki .. 256 Ki samples (size-dependent paths
+		// of a modified library), few tasks, few operations
+		p.c = 1 + prog.Draw(4)
+		p.frames = []int{65536, 65537, 1 << 17, 1 << 18}[prog.Draw(4)] / p.c
+		p.frames += prog.Draw(3)
+	}
 	if prog.Draw(2) == 1 {
 		p.extraCap = 1 + prog.Draw(8)
 	}
@@ -119,15 +130,21 @@ func drawShareProgram(prog *simrt.Stream, b Bounds) *shareProgram {
 	p.fillSeed = uint64(prog.Draw(1 << 30))
 	p.fillMode = prog.Draw(5)
 	p.nest = prog.Draw(3) == 2
+	p.build = prog.Draw(4)
+	p.raw = !p.window && prog.Draw(2) == 1
 	// Tasks and their operations are nested units, each preceded by the draw
 	// that decides whether it exists (0 = stop). Frame ranges are handed out
 	// consecutively: a writer owns its segment; in mixed runs a reader is
 	// confined to a segment no writer owns (its own, or an earlier read-only one).
 	contT := []int{2, 3, 6, 16}[prog.Draw(4)]
 	contO := []int{2, 4, 12}[prog.Draw(3)]
+	maxTasks, maxOps := 16, 12
+	if huge {
+		contT, contO, maxTasks, maxOps = 2, 2, 4, 3
+	}
 	at := 0
 	var roSegs [][2]int
-	for ti := 0; ti < 16; ti++ {
+	for ti := 0; ti < maxTasks; ti++ {
 		prog.Begin()
 		if ti >= 2 && !prog.More(contT) {
 			prog.End()
@@ -176,7 +193,7 @@ func drawShareProgram(prog *simrt.Stream, b Bounds) *shareProgram {
 				t.roStart, t.roEnd = seg[0], seg[1]
 			}
 		}
-		for k := 0; k < 12; k++ {
+		for k := 0; k < maxOps; k++ {
 			prog.Begin()
 			if k >= 1 && !prog.More(contO) {
 				prog.End()
@@ -201,26 +218,63 @@ func drawShareProgram(prog *simrt.Stream, b Bounds) *shareProgram {
 // build allocates and fills the shared buffer; everything here happens
 // before the tasks are created.
 func buildShared[T signal.SignalTypes](p *shareProgram) (big, shared *signal.Buffer[T]) {
-	big = signal.Alloc[T](signal.Allocator{Channels: p.c, Length: p.bigFrames, Capacity: p.bigFrames})
-	for i := 0; i < big.Len(); i++ {
-		var v T
+	val := func(i int) T {
 		switch p.fillMode {
 		case 0:
-			v = arb[T](p.fillSeed + uint64(i)*7)
+			return arb[T](p.fillSeed + uint64(i)*7)
 		case 1:
-			v = nice[T](p.fillSeed + uint64(i)*977)
+			return nice[T](p.fillSeed + uint64(i)*977)
 		case 2:
-			// all zero
+			var z T
+			return z // all zero
 		case 3:
-			v = nice[T](p.fillSeed)
-		default:
-			v = arb[T](p.fillSeed + uint64(i/5))
+			return nice[T](p.fillSeed)
 		}
-		big.SetSample(i, v)
+		return arb[T](p.fillSeed + uint64(i/5))
 	}
-	if p.window {
+	// How the buffer came to be matters to a library that keeps derived state
+	// in the header: allocated at its length, grown sample by sample, taken
+	// from a pool after a put/get cycle, or grown by Append. With raw, the
+	// tasks share that very header instead of a Slice of it.
+	length := p.bigFrames
+	if p.raw {
+		length = p.frames // spare capacity beyond the length stays zero
+	}
+	n := p.c * length
+	switch p.build {
+	case 1: // grown sample by sample
+		big = signal.Alloc[T](signal.Allocator{Channels: p.c, Length: 0, Capacity: p.bigFrames})
+		for i := 0; i < n; i++ {
+			big.AppendSample(val(i))
+		}
+	case 2: // from a pool, after a put/get cycle
+		pa := signal.PoolAlloc[T](signal.Allocator{Channels: p.c, Length: 0, Capacity: p.bigFrames})
+		b := pa.Get()
+		b.AppendSample(val(0))
+		pa.Put(b)
+		big = pa.Get()
+		for i := 0; i < n; i++ {
+			big.AppendSample(val(i))
+		}
+	case 3: // grown by Append inside its capacity
+		big = signal.Alloc[T](signal.Allocator{Channels: p.c, Length: 0, Capacity: p.bigFrames})
+		src := signal.Alloc[T](signal.Allocator{Channels: p.c, Length: length, Capacity: length})
+		for i := 0; i < n; i++ {
+			src.SetSample(i, val(i))
+		}
+		big.Append(src)
+	default:
+		big = signal.Alloc[T](signal.Allocator{Channels: p.c, Length: length, Capacity: p.bigFrames})
+		for i := 0; i < n; i++ {
+			big.SetSample(i, val(i))
+		}
+	}
+	switch {
+	case p.raw:
+		shared = big
+	case p.window:
 		shared = big.Slice(p.winStart, p.winStart+p.frames)
-	} else {
+	default:
 		shared = big.Slice(0, p.frames)
 	}
 	return big, shared
@@ -277,13 +331,13 @@ func (h *H[T]) readerOp(d *uint64, parent, view *signal.Buffer[T], op shareOp) {
 			mix64(d, bitsOf(ch.Sample(i)))
 		}
 	case rRead:
-		dst := make([]T, int(op.a)%(view.Len()+3))
+		dst := make([]T, sizeArg(op, view.Len()))
 		mix64(d, uint64(signal.Read(view, dst)))
 		for _, v := range dst {
 			mix64(d, bitsOf(v))
 		}
 	case rReadOther:
-		dst := make([]float64, int(op.a)%(view.Len()+3))
+		dst := make([]float64, sizeArg(op, view.Len()))
 		mix64(d, uint64(signal.Read(view, dst)))
 		for _, v := range dst {
 			mix64(d, bitsOf(v))
@@ -324,7 +378,7 @@ func (h *H[T]) writerOp(d *uint64, parent, own, ro *signal.Buffer[T], op shareOp
 		}
 		own.SetSample(int(op.a)%own.Len(), pick[T](op.b))
 	case wWrite:
-		vals := make([]T, int(op.a)%(own.Len()+3))
+		vals := make([]T, sizeArg(op, own.Len()))
 		for i := range vals {
 			vals[i] = pick[T](op.b + uint64(i))
 		}
@@ -379,6 +433,7 @@ func (h *H[T]) execShare(p *shareProgram, sim *simrt.Sim, label string) *shareRe
 	n := len(p.tasks)
 	res := &shareResult{digests: make([][]uint64, n), panicked: make([]int, n), rogue: make([]any, n)}
 	est := 0
+	var roots []*simrt.Task
 	for ti := range p.tasks {
 		ti := ti
 		pt := &p.tasks[ti]
@@ -387,7 +442,7 @@ func (h *H[T]) execShare(p *shareProgram, sim *simrt.Sim, label string) *shareRe
 		if pt.role == roleWriter {
 			name = "writer"
 		}
-		sim.Go(name, func(t *simrt.Task) {
+		roots = append(roots, sim.Go(name, func(t *simrt.Task) {
 			var d uint64 = 14695981039346656037
 			digs := make([]uint64, 0, len(pt.ops))
 			npanic := 0
@@ -439,11 +494,11 @@ func (h *H[T]) execShare(p *shareProgram, sim *simrt.Sim, label string) *shareRe
 					sim.Tracef("  %s task %d op %d: writer %s on frames [%d,%d) -> digest %#x", label, ti, k, writerOpNames[op.kind], pt.start, pt.end, d)
 				}
 			}
-		})
+		}))
 	}
 	simrt.Begin(sim)
 	sim.Run(est)
-	for ti, t := range sim.Tasks() {
+	for ti, t := range roots { // (the library may have started tasks of its own)
 		res.rogue[ti] = t.PanicVal
 	}
 	res.final = snapshotFull(big)
@@ -490,11 +545,19 @@ func (h *H[T]) C19(rc *runCtx) *Violation {
 	seqSim.SiteNames = sim.SiteNames
 	seqSim.Tracing = sim.Tracing
 	seq := h.execShare(p, seqSim, "seq")
+	if seqSim.RaceAborted {
+		// the reference execution already produced a data race report (the
+		// race oracle does not depend on the schedule): nothing more to learn
+		return nil
+	}
 	if sim.Tracing {
 		rc.extraTrace = append([]string{"--- reference: the same program, task after task ---"}, seqSim.RenderTrace()...)
 		rc.extraTrace = append(rc.extraTrace, "--- the same program under the drawn schedule ---")
 	}
 	conc := h.execShare(p, sim, "conc")
+	if sim.RaceAborted {
+		return nil // reported as a data race by the worker
+	}
 
 	for _, t := range p.tasks {
 		rc.ops += 2 * len(t.ops)
@@ -575,4 +638,15 @@ func pick[T signal.SignalTypes](k uint64) T {
 		return nice[T](k / 2)
 	}
 	return arb[T](k / 2)
+}
+
+// sizeArg picks the length of a caller's slice for a buffer of n samples:
+// half of the time exactly n (the ordinary use), otherwise anything from 0 to
+// n+2 (shorter, and longer than the buffer) — also for buffers far larger
+// than one 16-bit draw.
+func sizeArg(op shareOp, n int) int {
+	if op.c%2 == 0 {
+		return n
+	}
+	return int((op.a<<16 ^ op.b<<3 ^ op.c) % uint64(n+3))
 }
